@@ -19,7 +19,7 @@ def build_race(ck):
     env.update(vcheck.GOENV)
     out = ck.path("vdrive-race")
     for tags in (["-tags", "verif"], []):
-        p = subprocess.run(["go", "build", "-race"] + tags + ["-o", out, "./cmd/vdrive"], cwd=hdir, env=env, stdout=subprocess.PIPE,
+        p = subprocess.run(["go", "build", "-race"] + ck.modfile() + tags + ["-o", out, "./cmd/vdrive"], cwd=hdir, env=env, stdout=subprocess.PIPE,
                            stderr=subprocess.STDOUT, text=True)
         if p.returncode == 0:
             return out
